@@ -468,6 +468,15 @@ def r9_layout(ck, F):
             r_ = fmt.slice_region(e_, rsym, lambda x, _b=base: x.strip().ident() == _b)
             if r_ is not None:
                 regs.append(r_)
+        # ... and the two halves of every `split_at` of a region of the tail
+        for s_, cc, t in calls(c, "::split_at"):
+            if s_.i is not None:
+                continue
+            sp_ = Expr("call", c.arg_exprs(s_), path="core::slice::<impl [T]>::split_at", site=s_)
+            for half in (0, 1):
+                r_ = fmt.slice_region(Expr("field", [sp_], name=str(half), idx=half, adt="", ty=""), rsym, lambda x, _b=base: x.strip().ident() == _b)
+                if r_ is not None:
+                    regs.append(r_)
         key = ({"len": 1, "ks": -1}, {"len": 1, "ks": -1, "kl": 1})
         dat = ({"len": 1, "ks": -1, "kl": 1}, {"len": 1, "ks": -1, "kl": 1, "dl": 1})
         ok = key in regs and (nidx == 2 or dat in regs)
